@@ -642,10 +642,12 @@ def _spec_models(ctx, quick):
     jobs = [("mc/MC_BuildIndep_quick.cfg" if quick else "mc/MC_BuildIndep.cfg", None, "BuildFree holds for Next")] + HAZARDS
     if not quick:
         jobs.insert(1, ("mc/MC_BuildIndep_three.cfg", None, "BuildFree holds for Next (three-copy structure)"))
+        # per-action coverage on the small configuration only (-coverage makes the full one 50x slower)
+        jobs.insert(2, ("mc/MC_BuildIndep_quick.cfg", None, "per-action coverage"))
 
     def one(j):
         cfg, expect, what = j
-        r = tlc.run("mc/MC_BuildIndep", cfg, workers=6 if quick or expect else 16, timeout=3000, coverage=not quick and not expect)
+        r = tlc.run("mc/MC_BuildIndep", cfg, workers=6 if quick or expect else 16, timeout=3000, coverage=what == "per-action coverage")
         return j, r
 
     with concurrent.futures.ThreadPoolExecutor(max_workers=5 if quick else 2) as ex:
